@@ -320,6 +320,15 @@ VARIANTS["C03"] = [
         "            meta_shank[\"original_meta\"] = False\n            meta_shank[f\"{self.np_version}_shank\"] = int(sh[-1])\n            meta_file = self.shank_info[sh][\"ap_file\"].with_suffix(\".meta\")",
         "            meta_shank[\"original_meta\"] = False\n            meta_shank[\"fileTimeSecs\"] = self.nsamples / self.fs_ap\n            meta_shank[f\"{self.np_version}_shank\"] = int(sh[-1])\n            meta_file = self.shank_info[sh][\"ap_file\"].with_suffix(\".meta\")")],
       ("D5",), "an original field rewritten and never restored"),
+    V("subset-parser-exclusive", "fire", NP, [("                chns = np.arange(int(sub[0]), int(sub[1]) + 1)\n", "                chns = np.arange(int(sub[0]), int(sub[1]))\n")], ("D6",),
+      "parser treats the written inclusive range as exclusive"),
+    V("subset-writer-exclusive-end", "fire", SG, [("{chns[chn_grps[i + 1] - 1]}", "{chns[chn_grps[i + 1] - 1] + 1}")], ("D6",), "writer emits an exclusive end, parser expands inclusively"),
+    V("subset-writer-breaks-gt", "fire", SG, [("np.where(np.diff(chns) != 1)[0] + 1", "np.where(np.diff(chns) > 2)[0] + 1")], ("D6",), "runs merged across a one-channel gap"),
+    V("subset-parser-prepends", "fire", NP, [("                chns_all = np.r_[chns_all, chns]\n", "                chns_all = np.r_[chns, chns_all]\n")], ("D6",), ""),
+    V("subset-sep-semicolon", "fire", SG, [("    return \",\".join([sub for sub in chn_subset])", "    return \";\".join([sub for sub in chn_subset])")], ("D6",), ""),
+    V("subset-range-count", "fire", NP, [("            meta_shank[\"snsSaveChanSubset\"] = f\"0:{n_chns-1}\"\n            meta_shank[\"original_meta\"] = False\n            meta_shank[f\"{self.np_version}_shank\"]",
+                                          "            meta_shank[\"snsSaveChanSubset\"] = f\"0:{n_chns}\"\n            meta_shank[\"original_meta\"] = False\n            meta_shank[f\"{self.np_version}_shank\"]")], ("D6",), ""),
+    V("twin-subset-parser-stop-var", "twin", NP, [("                chns = np.arange(int(sub[0]), int(sub[1]) + 1)\n", "                chns = np.arange(int(sub[0]), 1 + int(sub[1]), 1)\n")], (), ""),
     V("twin-rint", "twin", NP, [("        chunk2save = np.round(\n            np.c_[", "        chunk2save = np.rint(\n            np.c_[")], (), ""),
     V("twin-taper-expr", "twin", NP, [("        self.samples_taper = int(self.samples_overlap / 4)\n", "        self.samples_taper = self.samples_overlap // 4\n")], (), ""),
 ]
